@@ -119,8 +119,11 @@ if __name__ == "__main__":
             else:
                 print(p, x)
     elif cmd == "runall":
-        for sid in sorted(os.listdir(SEEDED)):
-            res = run(sid)
+        from concurrent.futures import ThreadPoolExecutor
+        sids = sorted(os.listdir(SEEDED))
+        with ThreadPoolExecutor(max_workers=int(os.environ.get("SEED_JOBS", "8"))) as ex:
+            results = list(ex.map(run, sids))
+        for sid, res in zip(sids, results):
             with open(os.path.join(SEEDED, sid, "checks.txt"), "w") as fh:
                 for p, x in res.items():
                     if isinstance(x, dict):
